@@ -12,7 +12,8 @@ from .. import tlc
 from ..words import limbs
 from .c18 import _dispatch
 
-MENU = {0: 'aaaaa', 1: 'wawaa', 2: 'acaaa'}
+MENU = {0: 'aaaaa', 1: 'wawaa', 2: 'acaaa', 3: 'asaaa', 4: 'saasa', 5: 'alaaa', 6: 'aalsa'}
+HANDLERS = [14, 240, 176, 225, 0, 0, 0, 0, 192, 112, 160, 227, 8, 240, 94, 226, 4, 240, 94, 226]     # MC_IT!Handlers (136..155)
 
 
 def slot_bytes(form, k):
@@ -20,6 +21,10 @@ def slot_bytes(form, k):
         return [1, 48 + k]
     if form == 'w':
         return [k, 241, 1, k]
+    if form == 's':
+        return [0, 223]
+    if form == 'l':
+        return [56, 104]
     return [0, 46]
 
 
@@ -31,12 +36,13 @@ def scenario_task(task):
         for r in st['R']:
             st['R'][r] = limbs(0)
         st['R']['R6usr'] = limbs(1)
+        st['R']['R7usr'] = limbs(1)
         st['R']['PC'] = limbs(64)
         st['cpsr'] = limbs((sc['fl'] << 28) | 0x20 | 16)
         for m in st['spsr']:
             st['spsr'][m] = limbs(0)
         st['elr'] = limbs(0)
-        st['sys']['SCTLR'] = limbs(1 << 22)
+        st['sys']['SCTLR'] = limbs((1 << 22) | (2 if 'l' in MENU[sc['m']] else 0))
         st['sys']['SCR'] = limbs(0)
         st['sys']['VBAR'] = limbs(128)
         mem = st['mem']['base'][0]
@@ -46,11 +52,11 @@ def scenario_task(task):
         for k in range(1, 6):
             prog += slot_bytes(MENU[sc['m']][k - 1], k)
         mem[64:64 + len(prog)] = prog
-        mem[152:156] = [4, 240, 94, 226]
+        mem[136:156] = HANDLERS
         end = 64 + len(prog)
         steps, irqdone, first = 0, False, True
         cur = st
-        for _ in range(14):
+        for _ in range(24):
             pc = C.unlimbs(cur['R']['PC'])
             if pc == end and (C.unlimbs(cur['cpsr']) & 31) == 16:
                 break
@@ -64,7 +70,7 @@ def scenario_task(task):
                     steps += 1
             e, post = g.add(cur, act, meta={'sc': sc, 'pc': pc})
             cur = {k2: post[k2] for k2 in ('R', 'cpsr', 'spsr', 'elr', 'sys', 'mem', 'ev')}
-            if e['out'] != 'completed':
+            if e['out'] not in ('completed', 'svc', 'dabort'):
                 break
         # the run must end where the specification's run ends, with the block retired
         g.meta[len(g.events)]['final'] = {'pc': C.unlimbs(cur['R']['PC']), 'end': end,
@@ -112,7 +118,7 @@ def clause_filter(c, v, e):
 def run(ctx):
     rnd = random.Random(ctx.seed)
     q = ctx.quick
-    consts = {'GEN': 'TRUE', 'FLAGSET': '{0, 2, 6, 9}' if q else '{%s}' % ', '.join(str(i) for i in range(16)), 'MENUS': '{0, 1, 2}'}
+    consts = {'GEN': 'TRUE', 'FLAGSET': '{0, 2, 6, 9}' if q else '{%s}' % ', '.join(str(i) for i in range(16)), 'MENUS': '{0, 1, 2, 3, 5}' if q else '{0, 1, 2, 3, 4, 5, 6}'}
     r = ctx.mc('MC_IT', constants=consts, coverage=False, timeout=3000)
     scs = tlc.printed_json(r['out'])
     if len(scs) < 5000:
@@ -139,7 +145,7 @@ def run(ctx):
                           what='replayed scenario did not reach the end of the program')
     ctx.behaviours += sum(1 for g in groups for m in g.meta.values() if m.get('final'))
     ctx.extra['scenarios_from_tlc'] = len(scs)
-    ctx.extra['rule'] = ('MC_IT scenarios (legal (fc, mask) x NZCV x 3 menus x IRQ position; quick: every 6th, 4 flag values) '
+    ctx.extra['rule'] = ('MC_IT scenarios (legal (fc, mask) x NZCV x 5 (thorough: 7) menus incl. SVC and aborting-LDR slots x IRQ position; quick: every 6th, 4 flag values) '
                          'assembled into RAM and single-stepped on the real code, the IRQ taken by take_physical_irq_exception '
                          'and returned from by SUBS PC, LR, #4; every step judged by TLC; plus random IT-block programs')
     for g, e, v in res[:3]:
